@@ -312,7 +312,9 @@ fn m_audit(it: &Interner, a: &AuditEntry) -> Value {
                 it.versions
                     .iter()
                     .enumerate()
-                    .filter(|(_, v)| violation.matches(v))
+                    // the semver crate's own matcher on the plain version (a git revision of X.Y.Z is
+                    // covered like X.Y.Z), not cargo-vet's wrapper around it
+                    .filter(|(_, v)| violation.0.matches(&v.semver))
                     .map(|(i, _)| json!(i))
                     .collect(),
             )],
